@@ -155,6 +155,159 @@ class ConvParser(Parser):
         return super().postfix(e, nostruct)
 
 
+STREAM_FILES = ['src/ark_curve/encoding.rs', 'src/ark_curve/serialize.rs']
+
+
+class StreamParser(Parser):
+    """adds `match <ident> { …::Yes => A, …::No => B }` with arms `()`, `unimplemented!()` or an expression"""
+
+    def primary(self, nostruct):
+        if self.at('match') and self.peek(1)[0] == 'id' and self.at('{', 2):
+            self.eat('match')
+            var = self.eat()[1]
+            self.eat('{')
+            arms = {}
+            while not self.at('}'):
+                pat = [self.eat()[1]]
+                while self.at('::'):
+                    self.eat('::')
+                    pat.append(self.eat()[1])
+                self.eat('=>')
+                if self.at('(') and self.at(')', 1):
+                    self.eat(); self.eat()
+                    arm = 'unit'
+                else:
+                    e = self.expr()
+                    arm = 'panic' if e == ('macrocall', 'unimplemented') else e
+                arms[pat[-1]] = arm
+                if self.at(','):
+                    self.eat(',')
+            self.eat('}')
+            if set(arms) != {'Yes', 'No'}:
+                raise Untranslatable('mode match arms %s' % sorted(arms))
+            return ('modematch', var, arms['Yes'], arms['No'])
+        if self.at('[') and self.peek(1)[0] == 'num' and self.at(';', 2):
+            self.eat('['); self.eat(); self.eat(';'); self.eat(); self.eat(']')
+            return ('arrayrep',)
+        return super().primary(nostruct)
+
+
+class Stream:
+    """`CanonicalDeserialize::deserialize_with_mode` of `Encoding`, `Element`, `AffinePoint` on denotations: the reader is the list
+    `inp` of the bytes it will deliver, the two mode arguments are Booleans (`compress = Yes`, `validate = Yes`), `unimplemented!()`
+    is the outcome `panic`, `read_exact` into a 32-byte buffer is "the first 32 bytes, or the io error when fewer are left";
+    `Encoding::deserialize_compressed(reader)` refers to the `Encoding` form in (Yes, Yes) mode (assume-guarantee), `try_into()`
+    to the decoder `dec`, `.into()` between `Element` and `AffinePoint` is the identity on the denotation."""
+
+    def run(self, stmts, env):
+        if not stmts:
+            raise Untranslatable('no result')
+        s, rest = stmts[0], stmts[1:]
+        k = s[0]
+        if k == 'expr' and s[1][0] == 'modematch':
+            _, var, yes, no = s[1]
+            if env.get(var, (None, None))[1] != 'mode' or not rest:
+                raise Untranslatable('mode match on %s' % var)
+            cont = self.run(rest, env)
+            def arm(a):
+                if a == 'unit':
+                    return cont
+                if a == 'panic':
+                    return '.error .panic'
+                raise Untranslatable('mode arm')
+            return '(if %s then %s else %s)' % (env[var][0], arm(yes), arm(no))
+        if k == 'let' and s[1][0] == 'pname' and s[2] is not None:
+            e = s[2]
+            if e == ('arrayrep',):
+                return self.run(rest, dict(env, **{s[1][1]: (None, 'buf')}))
+            v, t = self.ev(e, env)
+            if t == 'tryenc':
+                cont = self.run(rest, dict(env, **{s[1][1]: ('bs', 'enc')}))
+                return '(if inp.length < 32 then .error .io else (fun bs => %s) (inp.take 32))' % cont
+            if t == 'tryelem':
+                cont = self.run(rest, dict(env, **{s[1][1]: ('el', 'elem')}))
+                return '(match dec %s with | .ok el => %s | .error _ => .error .invalidData)' % (v, cont)
+            return self.run(rest, dict(env, **{s[1][1]: (v, t)}))
+        if k == 'expr' and s[1][0] == 'try' and s[1][1][0] == 'method' and s[1][1][2] == 'read_exact' and len(s[1][1][3]) == 1:
+            tgt = s[1][1][3][0]
+            while tgt[0] in ('un', 'index'):
+                tgt = tgt[2] if tgt[0] == 'un' else tgt[1]
+            if tgt[0] != 'path' or env.get(tgt[1], (None, None))[1] != 'buf' or env.get(self.reader_of(s[1][1][1]), (None, None))[1] != 'reader':
+                raise Untranslatable('read_exact')
+            cont = self.run(rest, dict(env, **{tgt[1]: ('bs', 'arr')}))
+            return '(if inp.length < 32 then .error .io else (fun bs => %s) (inp.take 32))' % cont
+        if k == 'expr' and not rest:
+            v, t = self.ev(s[1], env)
+            if t == 'res':
+                return v
+            if t == 'resmapped':
+                return '(match dec %s with | .ok el => .ok el | .error _ => .error .invalidData)' % v
+            raise Untranslatable('tail of type %s' % t)
+        raise Untranslatable('statement %s' % k)
+
+    def reader_of(self, e):
+        while e[0] == 'un':
+            e = e[2]
+        return e[1] if e[0] == 'path' else None
+
+    def ev(self, e, env):
+        k = e[0]
+        if k == 'path':
+            if e[1] in env:
+                return env[e[1]]
+            raise Untranslatable('name %s' % e[1])
+        if k == 'un' and e[1] in ('&', '*'):
+            return self.ev(e[2], env)
+        if k == 'try':
+            v, t = self.ev(e[1], env)
+            if t == 'resenc':
+                return (v, 'tryenc')
+            if t == 'resmapped':
+                return (v, 'tryelem')
+            raise Untranslatable('? on %s' % t)
+        if k == 'call' and e[1][0] == 'path':
+            f = e[1][1]
+            av = [self.ev(x, env) for x in e[2]]
+            if f == 'Ok' and len(av) == 1 and av[0][1] in ('enc', 'elem'):
+                return ('(.ok %s)' % av[0][0], 'res')
+            if f in ('Self', 'Encoding') and len(av) == 1 and av[0][1] == 'arr':
+                return (av[0][0], 'enc')
+            if f == 'Encoding::deserialize_compressed' and len(av) == 1 and av[0][1] == 'reader':
+                return ('inp', 'resenc')
+            raise Untranslatable('call of %s' % f)
+        if k == 'method':
+            v, t = self.ev(e[1], env)
+            name = e[2]
+            if name == 'try_into' and t == 'enc' and not e[3]:
+                return (v, 'reselemraw')
+            if name == 'map_err' and t == 'reselemraw' and len(e[3]) == 1 and e[3][0][0] == 'closure' \
+                    and e[3][0][1][0] == 'path' and e[3][0][1][1].endswith('InvalidData'):
+                return (v, 'resmapped')
+            if name in ('into', 'into_group', 'into_affine', 'clone') and t == 'elem' and not e[3]:
+                return (v, t)
+            raise Untranslatable('method .%s on %s' % (name, t))
+        raise Untranslatable('expression %s' % k)
+
+
+def stream_impls(src):
+    for m in re.finditer(r'\bimpl\s+(?:\w+::)*CanonicalDeserialize\s+for\s+(Encoding|Element|AffinePoint)\s*\{', src):
+        depth, j = 1, m.end()
+        while depth:
+            depth += src[j] == '{'
+            depth -= src[j] == '}'
+            j += 1
+        body = src[m.end():j - 1]
+        f = re.search(r'\bfn\s+deserialize_with_mode\s*<[^>]*>\s*\(\s*(?:mut\s+)?(\w+)\s*:\s*R\s*,\s*(\w+)\s*:[^,]*,\s*(\w+)\s*:[^)]*\)[^{]*\{', body)
+        if not f:
+            continue
+        depth, e = 1, f.end()
+        while depth:
+            depth += body[e] == '{'
+            depth -= body[e] == '}'
+            e += 1
+        yield m.group(1), f.group(1), f.group(2), f.group(3), body[f.end() - 1:e], src[:m.start()].count('\n') + 1
+
+
 def impls(src):
     for m in re.finditer(r'\bimpl\b\s*(<[^>]*>)?\s*(TryFrom|From)\s*<\s*([^{]*?)\s*>\s+for\s+([^{]+?)\s*\{', src):
         trait, src_ty, dst_ty = m.group(2), m.group(3), m.group(4).strip()
@@ -210,6 +363,26 @@ def main():
                 report['forms'][rel] += 1
             except (Untranslatable, IndexError, KeyError, TypeError) as ex:
                 report['untranslated'].append('%s: %s' % (label, ex))
+    streams = {'deserEncoding': [], 'deserElement': []}
+    for rel in STREAM_FILES:
+        try:
+            src = open(os.path.join(repo, rel)).read()
+        except OSError as ex:
+            report['untranslated'].append('%s: %s' % (rel, ex))
+            continue
+        for target, reader, compress, validate, body, line in stream_impls(src):
+            label = '%s:%d CanonicalDeserialize for %s' % (rel, line, target)
+            try:
+                stmts = StreamParser(tokenize(body)).block()
+                v = Stream().run(stmts, {reader: ('inp', 'reader'), compress: ('compress', 'mode'), validate: ('validate', 'mode')})
+                if target == 'Encoding':
+                    streams['deserEncoding'].append((label, 'fun compress validate inp => %s' % v))
+                else:
+                    streams['deserElement'].append((label, 'fun dec compress validate inp => %s' % v))
+                report['forms'].setdefault(rel, 0)
+                report['forms'][rel] += 1
+            except (Untranslatable, IndexError, KeyError, TypeError) as ex:
+                report['untranslated'].append('%s: %s' % (label, ex))
     ty = {'decodeSlice': '(List Nat → Except ε α) → ε → ε → List Nat → Except ε α', 'decodeFixed': '(List Nat → Except ε α) → List Nat → Except ε α',
           'encodingOfSlice': 'ε → ε → List Nat → Except ε (List Nat)', 'encode': '(α → List Nat) → α → List Nat', 'bytes': 'List Nat → List Nat'}
     parts = ['/- GENERATED by translator/extract_convforms.py from the Rust sources of the repository; do not edit. -/', '',
@@ -218,6 +391,16 @@ def main():
         parts.append('def %sForms : List (String × (%s)) := [' % (name, ty[name]))
         parts.append(',\n'.join('  ("%s", %s)' % (l.replace('"', "'"), f) for l, f in lists[name]))
         parts.append(']\n')
+    parts.append('/-- outcome of a stream deserialiser: io error (short input), invalid data, or the `unimplemented!()` panic -/')
+    parts.append('inductive SerErr | io | invalidData | panic\n  deriving DecidableEq, Repr\n')
+    parts.append('/-- `CanonicalDeserialize for Encoding`: (compress = Yes) (validate = Yes) (bytes the reader delivers) -/')
+    parts.append('def deserEncodingForms : List (String × (Bool → Bool → List Nat → Except SerErr (List Nat))) := [')
+    parts.append(',\n'.join('  ("%s", %s)' % (l, f) for l, f in streams['deserEncoding']))
+    parts.append(']\n')
+    parts.append('/-- `CanonicalDeserialize for Element | AffinePoint` over a decoder `dec` -/')
+    parts.append('def deserElementForms : List (String × ((List Nat → Except ε α) → Bool → Bool → List Nat → Except SerErr α)) := [')
+    parts.append(',\n'.join('  ("%s", %s)' % (l, f) for l, f in streams['deserElement']))
+    parts.append(']\n')
     if report['untranslated']:
         parts.append('/- forms outside the translator\'s grammar (tied by the correspondence check only):')
         parts += ['   ' + u.replace('-/', '- /') for u in report['untranslated']]
@@ -228,6 +411,7 @@ def main():
     if old != text:
         open(out, 'w').write(text)
     report['counts'] = {k: len(v) for k, v in lists.items()}
+    report['counts'].update({k: len(v) for k, v in streams.items()})
     json.dump(report, open(os.path.splitext(out)[0] + '.index.json', 'w'), indent=1, sort_keys=True)
     print('convforms: %s translated, %d untranslated' % (report['counts'], len(report['untranslated'])))
 
